@@ -439,6 +439,51 @@ func runC06(w *W) {
 				}
 			})
 		}
+		if pick("ep.field") && c.rootT.Kind == tSTRUCT {
+			// single-field lookups (by id on Node and Value, by name on Value) and the accessor of the field's type:
+			// a lookup that does not report the damage must not hand out a node outside the input
+			c.guarded("Value.Field+accessor", len(b), func() {
+				v := generic.NewValue(c.desc, b)
+				for _, f := range c.rootT.St.Fields {
+					for k := 0; k < 3; k++ {
+						var g generic.Node
+						switch k {
+						case 0:
+							g = v.Field(thrift.FieldID(f.ID)).Node
+						case 1:
+							g = v.FieldByName(f.Name).Node
+						default:
+							g = v.Node.Field(thrift.FieldID(f.ID))
+						}
+						if g.IsError() {
+							continue
+						}
+						switch f.T.Kind {
+						case tBOOL:
+							g.Bool()
+						case tBYTE, tI16, tI32, tI64:
+							g.Int()
+						case tDOUBLE:
+							g.Float64()
+						case tSTRING:
+							if f.T.Binary {
+								g.Binary()
+							} else {
+								g.String()
+							}
+						case tLIST, tSET:
+							g.Len()
+							g.Index(0)
+						case tMAP:
+							g.Len()
+							g.Raw()
+						case tSTRUCT:
+							g.Field(1)
+						}
+					}
+				}
+			})
+		}
 		if pick("ep.interface") {
 			c.guarded("Node.Interface", len(b), func() {
 				generic.NewNode(thrift.Type(c.rootT.Kind), b).Interface(gopts)
